@@ -573,42 +573,58 @@ def rule_bind_guard(ctx, R, F):
            'pointers individually, key-determined content through the key comparison', min_instances=4)
     f = F.func('randomx_vm_set_cache', unit=RANDOMX_CPP)
     R.saw(fn=f['q'], unit=RANDOMX_CPP)
-    ifs = [x for x in walk(f['body']) if x['k'] == 'If' and any(c.get('fn') == 'randomx_vm::setCache' for c in calls(x['t']))]
+    import decoder as _dec
     uncond = [c for c in calls(f['body']) if c.get('fn') == 'randomx_vm::setCache']
-    if not ifs:
-        if uncond:
-            R.ok('randomx_vm_set_cache', '%s:%d' % (f['file'], f['line']), detail='setCache is called unconditionally (no shortcut to justify)')
-            return
+    if not uncond:
         raise AnalysisBroken('randomx_vm_set_cache: no call of setCache found')
-    cond = ifs[0]['c']
-    disj = []
 
-    def flat(n):
-        n = strip_all(n)
-        if n['k'] == 'Bin' and n['op'] == '||':
-            flat(n['l'])
-            flat(n['r'])
-        else:
-            disj.append(n)
-    flat(cond)
-    compared = set()   # (vm-side member path, cache-side expr)
-    for d in disj:
-        if d['k'] == 'Bin' and d['op'] == '!=':
-            l, r = strip_all(d['l']), strip_all(d['r'])
-        elif d['k'] == 'Call' and d.get('name') == 'operator!=':
-            l, r = strip_all(d['a'][0]), strip_all(d['a'][1])
-        else:
-            R.violation('guard disjunct', loc(d, f), expected='disjunction of inequality tests', found=show(d))
-            continue
-        sides = []
-        for x in (l, r):
-            if x['k'] == 'Call':
-                gf = getter_field(F, x)
-                sides.append(gf.replace('this->', 'VM->') if gf else show(x))
-            else:
-                sides.append(show(x).replace('machine->', 'VM->'))
-        compared.add(tuple(sides))
-        compared.add(tuple(reversed(sides)))
+    def side(x):
+        x = strip_all(x)
+        if x['k'] == 'Call':
+            gf = getter_field(F, x)
+            return gf.replace('this->', 'VM->') if gf else show(x)
+        return show(x).replace('machine->', 'VM->')
+
+    def known_equal(c, taken, out):
+        """equalities that are known to hold when condition c evaluates to `taken` (the same whether written as a != b || ... with a fall-through or as a == b && ... with an early return)"""
+        c = strip_all(c)
+        if c['k'] == 'Un' and c.get('op') == '!':
+            return known_equal(c['e'], not taken, out)
+        if c['k'] == 'Bin' and c['op'] == '||':
+            if not taken:
+                known_equal(c['l'], False, out)
+                known_equal(c['r'], False, out)
+            return
+        if c['k'] == 'Bin' and c['op'] == '&&':
+            if taken:
+                known_equal(c['l'], True, out)
+                known_equal(c['r'], True, out)
+            return
+        l = r = None
+        op = None
+        if c['k'] == 'Bin' and c['op'] in ('!=', '=='):
+            l, r, op = c['l'], c['r'], c['op']
+        elif c['k'] == 'Call' and c.get('name') in ('operator!=', 'operator=='):
+            l, r, op = c['a'][0], c['a'][1], c['name'][-2:]
+        if l is None:
+            return
+        if (op == '==') == taken:
+            out.add((side(l), side(r)))
+            out.add((side(r), side(l)))
+    skip_paths = []
+    for p_ in _dec.paths(f['body']):
+        if not any(c.get('fn') == 'randomx_vm::setCache' for e_ in p_.events if not isinstance(e_, tuple) for c in calls(e_)):
+            skip_paths.append(p_)
+    if not skip_paths:
+        R.ok('randomx_vm_set_cache', '%s:%d' % (f['file'], f['line']), detail='setCache is called on every path (no shortcut to justify)')
+        return
+    compared = None
+    for p_ in skip_paths:
+        eqs = set()
+        for c_, t_ in p_.conds:
+            known_equal(c_, t_, eqs)
+        compared = eqs if compared is None else (compared & eqs)
+    compared = compared or set()
     key_compared = ('VM->cacheKey', 'cache->cacheKey') in compared
     seen = 0
     for sc in F.funcs(r'::setCache$'):
